@@ -341,13 +341,44 @@ def r8_client_builder_fields(ctx):
     setter_arg_crossing(ctx, "C05.R8b", r"^<?jsonrpsee_(ws_client|http_client|core::client|wasm_client)::", 3)
 
 
+def r9_lagged_is_reported_as_lagged(ctx):
+    """a stream that ended because the consumer lagged is reported as Lagged whenever it is asked, before or after it was
+    drained: in Subscription::close_reason `ConnectionClosed` is answered only where has_lagged() was false"""
+    F, R = ctx.F, ctx.R
+    b = F.one(r"^jsonrpsee_core::client::Subscription::<Notif>::close_reason$")
+    R.fn(b)
+    hl = b.calls_to(r"has_lagged$")
+    cc = [(bi, st) for bi, blk in enumerate(b.blocks) if bi in b.reachable and not blk.get("cleanup") for st in blk["st"] if st["s"] == "assign" and st["rv"]["k"] == "agg" and st["rv"].get("variant") == "ConnectionClosed"]
+    lg = [(bi, st) for bi, blk in enumerate(b.blocks) if bi in b.reachable and not blk.get("cleanup") for st in blk["st"] if st["s"] == "assign" and st["rv"]["k"] == "agg" and st["rv"].get("variant") == "Lagged"]
+    if len(hl) != 1 or not cc or not lg:
+        raise AnchorLost("has_lagged / ConnectionClosed / Lagged in Subscription::close_reason")
+    false_arms, true_arms = set(), set()
+    for l in follow_value(b, hl[0].dest["l"]):
+        for sb, arms, other in flow.switch_on(b, l):
+            if arms.get("0") is not None:
+                false_arms.add(arms["0"])
+            if arms.get("1") is not None:
+                true_arms.add(arms["1"])
+    for bi, st in cc:
+        R.check(any(b.dominates(t, bi) for t in false_arms), "C05.R9", "close_reason:closed-only-if-not-lagged", "ConnectionClosed is reported only when the stream did not lag", "Subscription::close_reason can answer ConnectionClosed although the stream lagged (the lag test does not come first): after a lagged stream was drained to its end the lag is misreported as a closed connection", "%s:%d" % (b.file, st["sp"][0]))
+    for bi, st in lg:
+        R.check(any(b.dominates(t, bi) for t in true_arms), "C05.R9", "close_reason:lagged-iff-flag", "Lagged is reported on the has_lagged() branch", "Lagged is not tied to has_lagged()", "%s:%d" % (b.file, st["sp"][0]))
+
+
 def rarr_every_element(ctx):
     """an array message is processed element by element to the end"""
     from .common import array_elements_all_processed
     array_elements_all_processed(ctx.F, ctx.R, "C05.ARR")
 
 
-RULES = [r1_classifier_agreement, r2_routing, r3_lag_and_close, r4_single_unsubscribe, r5_close_messages_are_not_lossy, r6_refused_insert_is_pure, r7_classifiers_are_plain, r8_client_builder_fields, rarr_every_element]
+
+def rcancel_receive_is_cancel_safe(ctx):
+    """the read task never drops a half-received message"""
+    from .common import read_task_receive_is_cancel_safe
+    read_task_receive_is_cancel_safe(ctx, "C05.CANCEL")
+
+
+RULES = [r1_classifier_agreement, r2_routing, r3_lag_and_close, r4_single_unsubscribe, r5_close_messages_are_not_lossy, r6_refused_insert_is_pure, r7_classifiers_are_plain, r8_client_builder_fields, r9_lagged_is_reported_as_lagged, rarr_every_element, rcancel_receive_is_cancel_safe]
 
 LEVEL_TEXT = (
     "Structural necessary conditions of the client's notification demultiplexing decided from the type-checked program: "
